@@ -515,8 +515,9 @@ func (m *Memory) Pages() uint32 {
 
 func (m *Memory) Grow(deltaPages uint32) (previousPages uint32, ok bool) {
 	previousPages = m.Pages()
-	numPages := previousPages + deltaPages
-	if m.Max != 0 && numPages > m.Max {
+	// In 64 bits: the sum must not wrap around, and a memory has at most 65536 pages whatever Max says.
+	numPages := uint64(previousPages) + uint64(deltaPages)
+	if (m.Max != 0 && numPages > uint64(m.Max)) || numPages > 65536 {
 		return previousPages, false
 	}
 	bytes := make([]byte, PageSize*numPages)
@@ -595,7 +596,7 @@ func (m *Memory) WriteUint32Le(offset uint32, value uint32) bool {
 }
 
 func (m *Memory) WriteUint64Le(offset uint32, value uint64) bool {
-	if m.isOutOfRange(offset, 4) {
+	if m.isOutOfRange(offset, 8) {
 		return false
 	}
 	binary.LittleEndian.PutUint64(m.Bytes[offset:], value)
@@ -628,7 +629,8 @@ func (m *Memory) WriteString(offset uint32, value string) bool {
 
 func (m *Memory) isOutOfRange(offset, length uint32) bool {
 	size := m.Size()
-	return offset >= size || length > size || offset > (size-length)
+	// An empty range at the very end of the memory is in range, as with api.Memory of the engines.
+	return offset > size || length > size || offset > (size-length)
 }
 
 type memoryDefinition struct {
